@@ -28,7 +28,37 @@ MSGID = Stage(
     nontrivial=lambda e: e.get("ev") in ("Combine", "Split", "Str", "Sweep"),
 )
 
+GSM7 = Stage(
+    family="gsm7",
+    mc={"quick": [("MC_Gsm7.tla", "MC_Gsm7_branch_quick.cfg", "pass"), ("MC_Gsm7.tla", "MC_Gsm7_full_quick.cfg", "pass"),
+                  ("MC_Gsm7.tla", "MC_Gsm7_neg.cfg", "fail")],
+        "thorough": [("MC_Gsm7.tla", "MC_Gsm7_branch.cfg", "pass"), ("MC_Gsm7.tla", "MC_Gsm7_full.cfg", "pass"),
+                     ("MC_Gsm7.tla", "MC_Gsm7_neg.cfg", "fail")]},
+    parts={"quick": [("pack", 4), ("alpha", 2)], "thorough": [("pack", 8), ("alpha", 4)]},
+    trace=("Trace_Gsm7.tla", "Trace_Gsm7.cfg"),
+    nontrivial=lambda e: e.get("ev") not in ("SweepStart", "SweepEnd"),
+)
+
 CHECKS = {
+    "C08": dict(
+        stages=[GSM7],
+        technique="TS 23.038 tables and bit-stream packing transcribed into TLA+ (Gsm7.tla): TLC exhaustive on the streaming "
+                  "packer / block unpacker state machine + TLC validation of every recorded call of all real entry points",
+        level_text="TLC checks, for every septet sequence of length <=3 over 0..127 and <=8 over the branch alphabet, that the "
+                   "streaming packer equals the bit-stream definition, UnpackN(Pack(s))=s, CR fill, and that the block-of-eight "
+                   "unpacker answers within the allowed end-of-message ambiguities (the unpacker with the mid-message zero guard "
+                   "is the negative configuration); table ASSUMEs check the alphabet is a bijection.  All real entry points "
+                   "(Pack/Unpack/Encode/Decode, both transformers, GSM7Packed/Unpacked, three validators) are then validated "
+                   "on single-bit wirings for lengths 1..64, the MC enumeration, all branch assignments around every block "
+                   "boundary for lengths 1..40, random sequences up to 2000 septets, all 1,114,112 code points (intervals) "
+                   "and all 256x256 septet pairs",
+        level_note="the code-point sweep is classified element-wise in Go (round trip / refusal / agreement of entry points), TLC "
+                   "judges the classes against the TS 23.038 repertoire; the transformers are exercised through transform.Bytes "
+                   "(one Transform call), not in chunked streaming mode",
+        rule="septet sequences (single-bit, exhaustive short, block-boundary assignments, random), texts, septet strings, pair "
+             "rows, code-point intervals; distinct = distinct events excluding trace ids",
+        assumptions=["transform.Bytes from x/text", "TS 23.038 tables as transcribed in Gsm7.tla"],
+    ),
     "C17": dict(
         stages=[MSGID],
         technique="TLA+ bit-level definition of the CMPP Msg_Id (MsgId.tla): TLC exhaustive at scaled widths + TLC "
